@@ -921,6 +921,6 @@ LEVEL_TEXT = ("Machine-checked Coq theorems about an executable model of DateTim
 DESIGN_REF = "DESIGN.md section 4 C12"
 LEVEL_NOTE = ("Trusted: Coq kernel+VM; Spec/Cal.v, Spec/Zone.v as models of datetime/zoneinfo (validated by C15/C02 streams); hand models Model/StartEnd*.v and "
               "Model/TzConvert.v (validated by correspondence every run, the week walks dt_previous/dt_next also on their own: stream week-walk); "
-              "wf_zone of real tables is evaluated, not proved.  All streams are inside the Coq model (no oracle-only stream); the classification of "
+              "wf2_zone of every shipped table is proved by kernel computation (Props/C02.v shipped_zones_wellformed over Gen/ZoneTables.v).  All streams are inside the Coq model (no oracle-only stream); the classification of "
               "listed findings uses a stdlib restatement of the model (tools/props/C12.py `documented`) so that it stays tight when the model cannot be built.")
 TECHNIQUE = "Coq proof (calendar bijection + lia, induction over transition tables and loop fuel) + translation + differential correspondence + stdlib oracle"
